@@ -223,19 +223,115 @@ Proof.
   apply hsucc_measure in H0. lia.
 Qed.
 
+(* ------------------------------------------------------------------ erasure of the ghost history *)
+Lemma erase_idem st : erase (erase st) = erase st.
+Proof. reflexivity. Qed.
+
+Lemma do_write_erase st w wr ks bad :
+  map erase (do_write (erase st) w wr ks bad) = map erase (do_write st w wr ks bad).
+Proof.
+  destruct st as [u d ch cap ws bg np fifo strs cl hist].
+  unfold do_write, erase; simpl.
+  unfold bad_hits, valid_frame, group_of, kind_of; simpl.
+  repeat match goal with |- context [if ?c then _ else _] => destruct c end; reflexivity.
+Qed.
+
+Lemma map_flat_map {A B C} (g : B -> C) (f : A -> list B) l :
+  map g (flat_map f l) = flat_map (fun x => map g (f x)) l.
+Proof. induction l as [|x r IH]; simpl; [reflexivity|]. rewrite map_app, IH. reflexivity. Qed.
+
+Lemma vstep_erase st o : vstep_e (erase st) o = vstep_e st o.
+Proof.
+  unfold vstep_e.
+  destruct st as [u d ch cap ws bg np fifo strs cl hist].
+  destruct o; unfold vstep, erase, driver_blocked; simpl;
+    try (destruct (negb cl && existsb (fun ss : N * streamer => s_closing ss.2 && s_conn ss.2) strs); [reflexivity|]).
+  - unfold open_writer_ok, kind_of; simpl.
+    repeat match goal with |- context [match ?c with _ => _ end] => destruct c end; reflexivity.
+  - unfold bg_active; simpl. destruct (alookup w bg); reflexivity.
+  - unfold bg_active; simpl. destruct (alookup w bg); reflexivity.
+  - unfold open_writer_of, bg_active; simpl.
+    destruct (alookup w ws) as [wr|]; [|reflexivity]. destruct (w_open wr); [|reflexivity].
+    destruct (alookup w bg); [reflexivity|].
+    apply (do_write_erase (State u d ch cap ws bg np fifo strs cl hist)).
+  - destruct cl; [reflexivity|]. destruct (alookup s strs); reflexivity.
+  - destruct cl; reflexivity.
+  - destruct cl; reflexivity.
+  - destruct cl; reflexivity.
+  - destruct cl; reflexivity.
+  - destruct cl; [reflexivity|]. unfold sync_ready; simpl.
+    match goal with |- context [if ?c then _ else _] => destruct c end; reflexivity.
+  - destruct cl; [reflexivity|]. rewrite !map_app. f_equal.
+    + destruct (length fifo <=? cap)%nat; reflexivity.
+    + destruct fifo as [|f q]; [reflexivity|]. rewrite !map_map. apply map_ext. intros; reflexivity.
+  - unfold open_writer_of, bg_active; simpl.
+    destruct (alookup w ws) as [wr|]; [|reflexivity]. destruct (w_open wr); [|reflexivity].
+    destruct (alookup w bg); reflexivity.
+  - destruct (alookup w bg) as [[|? ?]|]; reflexivity.
+Qed.
+
+Lemma hsucc_erase st : hsucc_e (erase st) = hsucc_e st.
+Proof.
+  unfold hsucc_e, hsucc. rewrite !map_app.
+  destruct st as [u d ch cap ws bg np fifo strs cl hist]. unfold erase; simpl.
+  f_equal; [|f_equal; [|f_equal]].
+  - unfold deliver_succs; simpl. destruct cl; [reflexivity|]. destruct fifo as [|f q]; [reflexivity|].
+    rewrite !map_map. apply map_ext. intros; reflexivity.
+  - unfold apply_succs; simpl. rewrite !map_flat_map. apply flat_map_ext. intros [s x0]. simpl.
+    destruct (alookup s strs) as [x|]; [|reflexivity]. unfold can_apply; simpl.
+    match goal with |- context [if ?c then _ else _] => destruct c end; reflexivity.
+  - unfold disc_succs; simpl. rewrite !map_flat_map. apply flat_map_ext. intros [s x0]. simpl.
+    destruct (alookup s strs) as [x|]; [|reflexivity]. unfold can_disc; simpl.
+    match goal with |- context [if ?c then _ else _] => destruct c end; reflexivity.
+  - unfold bg_succs; simpl. rewrite !map_flat_map. apply flat_map_ext. intros [w kss0]. simpl.
+    destruct (alookup w bg) as [[|ks rest]|]; try reflexivity.
+    unfold open_writer_of; simpl. destruct (alookup w ws) as [wr|]; [|reflexivity].
+    destruct (w_open wr); [|reflexivity].
+    apply (do_write_erase (State u d ch cap ws (aupdate w (fun _ => rest) bg) np fifo strs cl hist)).
+Qed.
+
+Lemma erase_measure st : measure (erase st) = measure st.
+Proof. reflexivity. Qed.
+Lemma erase_compat obs st : compat obs (erase st) = compat obs st.
+Proof. reflexivity. Qed.
+Lemma erase_observe st : observe (erase st) = observe st.
+Proof. reflexivity. Qed.
+Lemma erase_blocked st : driver_blocked (erase st) = driver_blocked st.
+Proof. reflexivity. Qed.
+
+Lemma hsucc_e_measure st st' : In st' (hsucc_e st) -> (measure st' < measure st)%nat.
+Proof.
+  unfold hsucc_e. intros H. apply in_map_iff in H. destruct H as (y & <- & Hy).
+  rewrite erase_measure. apply hsucc_measure. exact Hy.
+Qed.
+
+Lemma measure_zero_no_succ_e st : measure st = O -> hsucc_e st = [].
+Proof. intros H. unfold hsucc_e. rewrite (measure_zero_no_succ _ H). reflexivity. Qed.
+
 (* ------------------------------------------------------------------ hidden closure *)
 Definition hclosed (obs : observation) (sts : list state) : Prop :=
-  forall x y, In x sts -> In y (hsucc x) -> compat obs y = true -> In y sts.
+  forall x y, In x sts -> In y (hsucc_e x) -> compat obs y = true -> In y sts.
 
 Inductive hstar : state -> state -> Prop :=
 | hstar_refl x : hstar x x
 | hstar_step x y z : In y (hsucc x) -> hstar y z -> hstar x z.
 
+Inductive hstar_e : state -> state -> Prop :=
+| hstar_e_refl x : hstar_e x x
+| hstar_e_step x y z : In y (hsucc_e x) -> hstar_e y z -> hstar_e x z.
+
 Lemma hstar_trans x y z : hstar x y -> hstar y z -> hstar x z.
 Proof. induction 1; intros; eauto using hstar. Qed.
 
-Lemma hstar_one x y : In y (hsucc x) -> hstar x y.
-Proof. intros. eapply hstar_step; eauto using hstar. Qed.
+(* an erased hidden path lifts to a real one *)
+Lemma hstar_e_lift x z : hstar_e x z -> forall r, erase r = x -> exists r', hstar r r' /\ erase r' = z.
+Proof.
+  induction 1; intros r Hr.
+  - exists r. split; [constructor|exact Hr].
+  - subst x. rewrite hsucc_erase in H. unfold hsucc_e in H. apply in_map_iff in H.
+    destruct H as (r1 & E1 & H1). destruct (IHhstar_e r1 E1) as (r' & Hs & Er).
+    exists r'. split; [eapply hstar_step; eauto|exact Er].
+Qed.
 
 Lemma max_measure_bound x l : In x l -> (measure x <= max_measure l)%nat.
 Proof.
@@ -246,7 +342,7 @@ Qed.
 Lemma bfs_spec obs fuel : forall seen frontier,
   incl frontier seen ->
   (forall x, In x seen -> ~ In x frontier ->
-             forall y, In y (hsucc x) -> compat obs y = true -> In y seen) ->
+             forall y, In y (hsucc_e x) -> compat obs y = true -> In y seen) ->
   (forall x, In x frontier -> (measure x <= fuel)%nat) ->
   incl seen (bfs fuel obs seen frontier) /\ hclosed obs (bfs fuel obs seen frontier).
 Proof.
@@ -254,16 +350,16 @@ Proof.
   - split; [apply incl_refl|]. intros x y Hx Hy Hc.
     destruct (inb x frontier) eqn:E.
     + apply inb_spec in E. apply Hm in E. assert (measure x = O) by lia.
-      rewrite (measure_zero_no_succ _ H) in Hy. destruct Hy.
+      rewrite (measure_zero_no_succ_e _ H) in Hy. destruct Hy.
     + apply (Hinv x Hx); auto. intros Hf. apply inb_spec in Hf. congruence.
-  - set (cand := filter (compat obs) (flat_map hsucc frontier)).
+  - set (cand := filter (compat obs) (flat_map hsucc_e frontier)).
     set (new := dedup (filter (fun st => negb (inb st seen)) cand)).
     assert (Hnew : forall y, In y new <-> In y cand /\ ~ In y seen).
     { intros y. unfold new. rewrite dedup_spec, filter_In. rewrite negb_true_iff.
       split; intros [H1 H2]; split; auto.
       - intros H. apply inb_spec in H. congruence.
       - destruct (inb y seen) eqn:E; [|reflexivity]. apply inb_spec in E. tauto. }
-    assert (Hcand : forall y, In y cand <-> (exists p, In p frontier /\ In y (hsucc p)) /\ compat obs y = true).
+    assert (Hcand : forall y, In y cand <-> (exists p, In p frontier /\ In y (hsucc_e p)) /\ compat obs y = true).
     { intros y. unfold cand. rewrite filter_In, in_flat_map. tauto. }
     destruct (IH (seen ++ new) new) as [I1 I2].
     + intros y Hy. apply in_or_app. right. exact Hy.
@@ -278,19 +374,19 @@ Proof.
       * apply in_or_app. left. apply (Hinv x Hx); auto.
         intros Hf. apply inb_spec in Hf. congruence.
     + intros x Hx. apply Hnew in Hx. destruct Hx as [Hx _]. apply Hcand in Hx.
-      destruct Hx as [(p & Hp & Hxp) _]. apply hsucc_measure in Hxp. apply Hm in Hp. lia.
+      destruct Hx as [(p & Hp & Hxp) _]. apply hsucc_e_measure in Hxp. apply Hm in Hp. lia.
     + split; [|exact I2]. intros x Hx. apply I1. apply in_or_app. left. exact Hx.
 Qed.
 
 Lemma bfs_sound obs fuel : forall seen frontier x,
   incl frontier seen -> In x (bfs fuel obs seen frontier) ->
-  exists x0, In x0 seen /\ hstar x0 x /\ (In x seen \/ compat obs x = true).
+  exists x0, In x0 seen /\ hstar_e x0 x /\ (In x seen \/ compat obs x = true).
 Proof.
   induction fuel as [|n IH]; intros seen frontier x Hinc Hx; simpl in Hx.
   - exists x. split; [exact Hx|]. split; [constructor|left; exact Hx].
-  - set (cand := filter (compat obs) (flat_map hsucc frontier)) in *.
+  - set (cand := filter (compat obs) (flat_map hsucc_e frontier)) in *.
     set (new := dedup (filter (fun st => negb (inb st seen)) cand)) in *.
-    assert (Hnew : forall y, In y new -> exists p, In p frontier /\ In y (hsucc p) /\ compat obs y = true).
+    assert (Hnew : forall y, In y new -> exists p, In p frontier /\ In y (hsucc_e p) /\ compat obs y = true).
     { intros y Hy. unfold new in Hy. rewrite dedup_spec, filter_In in Hy. destruct Hy as [Hy _].
       unfold cand in Hy. rewrite filter_In, in_flat_map in Hy. destruct Hy as [(p & Hp & Hyp) Hc].
       exists p. auto. }
@@ -304,7 +400,7 @@ Proof.
       apply in_app_or in H0. destruct H0 as [H0|H0].
       * exists x0. auto.
       * destruct (Hnew _ H0) as (p & Hp & Hyp & _). exists p. split; [apply Hinc; exact Hp|].
-        split; [eapply hstar_step; eauto|exact Hxc].
+        split; [eapply hstar_e_step; eauto|exact Hxc].
 Qed.
 
 Lemma closure_incl obs sts x : In x sts -> compat obs x = true -> In x (closure obs sts).
@@ -329,7 +425,7 @@ Proof.
 Qed.
 
 Lemma closure_sound obs sts x :
-  In x (closure obs sts) -> (exists x0, In x0 sts /\ hstar x0 x) /\ compat obs x = true.
+  In x (closure obs sts) -> (exists x0, In x0 sts /\ hstar_e x0 x) /\ compat obs x = true.
 Proof.
   unfold closure. set (s0 := dedup (filter (compat obs) sts)). intros Hx.
   destruct (bfs_sound obs _ s0 s0 x (incl_refl _) Hx) as (x0 & H0 & Hs & Hc).
@@ -610,15 +706,19 @@ Proof. apply closure_hclosed. Qed.
 
 Lemma run_in_states obs st ls st' :
   run st ls st' -> compat obs st' = true ->
-  forall sts, hclosed obs sts -> In st sts -> In st' (fold_left (after_op obs) (visible ls) sts).
+  forall sts, hclosed obs sts -> In (erase st) sts ->
+  In (erase st') (fold_left (after_op obs) (visible ls) sts).
 Proof.
   induction 1; intros Hc sts Hcl Hin; simpl; [exact Hin|].
   pose proof (run_compat_back obs _ _ _ H0 Hc) as Hc1.
   destruct l as [|o]; simpl in *.
-  - apply IHrun; auto. eapply Hcl; eauto.
+  - apply IHrun; auto. apply (Hcl (erase st)); [exact Hin| |rewrite erase_compat; exact Hc1].
+    rewrite hsucc_erase. unfold hsucc_e. apply in_map. exact H.
   - apply IHrun; auto.
     + apply after_op_hclosed.
-    + unfold after_op. apply closure_incl; [|exact Hc1]. apply in_flat_map. exists st. auto.
+    + unfold after_op. apply closure_incl; [|rewrite erase_compat; exact Hc1].
+      apply in_flat_map. exists (erase st). split; [exact Hin|].
+      rewrite vstep_erase. unfold vstep_e. apply in_map. exact H.
 Qed.
 
 (* every run of the LTS is accepted *)
@@ -630,11 +730,11 @@ Proof.
   assert (Hn : List.NoDup (map fst (st_strs st))).
   { eapply run_nodup; [exact Hr|]. simpl. constructor. }
   pose proof (compat_self st Hn) as Hc.
-  apply existsb_exists. exists st. split.
+  apply existsb_exists. exists (erase st). split.
   - apply (run_in_states _ _ _ _ Hr Hc).
     + apply closure_hclosed.
     + apply closure_incl; [left; reflexivity|]. eapply run_compat_back; eauto.
-  - unfold final_ok. rewrite Hb. simpl. apply obs_eqb_spec. reflexivity.
+  - unfold final_ok. rewrite erase_blocked, Hb. simpl. rewrite erase_observe. apply obs_eqb_spec. reflexivity.
 Qed.
 
 (* every accepted observation is produced by a run following the script *)
@@ -652,31 +752,34 @@ Proof. induction 1; simpl; auto. intros. econstructor; eauto. Qed.
 Lemma visible_app l1 l2 : visible (l1 ++ l2) = visible l1 ++ visible l2.
 Proof. induction l1 as [|[|o] r IH]; simpl; congruence. Qed.
 
-Lemma states_sound obs script : forall sts st0,
-  (forall x, In x sts -> exists ls, run st0 ls x /\ visible ls = []) ->
-  forall st, In st (fold_left (after_op obs) script sts) ->
-  exists ls, run st0 ls st /\ visible ls = script.
+(* one operation of the checker, lifted to real states *)
+Lemma after_op_lift obs sts o st0 pre x :
+  (forall y, In y sts -> exists r ls, run st0 ls r /\ visible ls = pre /\ erase r = y) ->
+  In x (after_op obs sts o) ->
+  exists r ls, run st0 ls r /\ visible ls = pre ++ [o] /\ erase r = x.
 Proof.
-  induction script as [|o r IH]; intros sts st0 Hs st Hin; simpl in Hin; [auto|].
-  assert (Hgen : forall pre sts,
-    (forall x, In x sts -> exists ls, run st0 ls x /\ visible ls = pre) ->
-    forall st, In st (fold_left (after_op obs) (o :: r) sts) ->
-    exists ls, run st0 ls st /\ visible ls = pre ++ o :: r); [|apply (Hgen [] sts Hs st Hin)].
-  clear. revert o. induction r as [|o' r IHr]; intros o pre sts Hs st Hin; simpl in Hin.
-  - unfold after_op in Hin. apply closure_sound in Hin. destruct Hin as [(x0 & Hx0 & Hst) _].
-    apply in_flat_map in Hx0. destruct Hx0 as (y & Hy & Hstep).
-    destruct (Hs y Hy) as (l1 & R1 & V1). destruct (hstar_run _ _ Hst) as (l2 & R2 & V2).
-    exists (l1 ++ Vis o :: l2). split.
-    + eapply run_app; [exact R1|]. econstructor; [exact Hstep|exact R2].
-    + rewrite visible_app. simpl. rewrite V1, V2. reflexivity.
-  - replace (pre ++ o :: o' :: r) with ((pre ++ [o]) ++ o' :: r) by (rewrite <- app_assoc; reflexivity).
-    apply (IHr o' (pre ++ [o]) (after_op obs sts o)); [|exact Hin].
-    intros x Hx. unfold after_op in Hx. apply closure_sound in Hx. destruct Hx as [(x0 & Hx0 & Hst) _].
-    apply in_flat_map in Hx0. destruct Hx0 as (y & Hy & Hstep).
-    destruct (Hs y Hy) as (l1 & R1 & V1). destruct (hstar_run _ _ Hst) as (l2 & R2 & V2).
-    exists (l1 ++ Vis o :: l2). split.
-    + eapply run_app; [exact R1|]. econstructor; [exact Hstep|exact R2].
-    + rewrite visible_app. simpl. rewrite V1, V2. reflexivity.
+  intros Hs Hx. unfold after_op in Hx. apply closure_sound in Hx. destruct Hx as [(x0 & Hx0 & Hst) _].
+  apply in_flat_map in Hx0. destruct Hx0 as (y & Hy & Hstep).
+  destruct (Hs y Hy) as (r & l1 & R1 & V1 & Er). subst y.
+  rewrite vstep_erase in Hstep. unfold vstep_e in Hstep. apply in_map_iff in Hstep.
+  destruct Hstep as (r1 & E1 & Hr1).
+  destruct (hstar_e_lift _ _ Hst r1 E1) as (r2 & Hs2 & E2).
+  destruct (hstar_run _ _ Hs2) as (l2 & R2 & V2).
+  exists r2, (l1 ++ Vis o :: l2). split; [|split; [|exact E2]].
+  - eapply run_app; [exact R1|]. econstructor; [exact Hr1|exact R2].
+  - rewrite visible_app. simpl. rewrite V1, V2. reflexivity.
+Qed.
+
+Lemma states_sound obs script : forall sts st0 pre,
+  (forall y, In y sts -> exists r ls, run st0 ls r /\ visible ls = pre /\ erase r = y) ->
+  forall x, In x (fold_left (after_op obs) script sts) ->
+  exists r ls, run st0 ls r /\ visible ls = pre ++ script /\ erase r = x.
+Proof.
+  induction script as [|o rest IH]; intros sts st0 pre Hs x Hin; simpl in Hin.
+  - rewrite app_nil_r. apply Hs. exact Hin.
+  - replace (pre ++ o :: rest) with ((pre ++ [o]) ++ rest) by (rewrite <- app_assoc; reflexivity).
+    apply (IH (after_op obs sts o) st0 (pre ++ [o])); [|exact Hin].
+    intros y Hy. eapply after_op_lift; eauto.
 Qed.
 
 Theorem accepts_sound chans cap script obs :
@@ -684,11 +787,13 @@ Theorem accepts_sound chans cap script obs :
   exists ls st, run (init chans cap) ls st /\ visible ls = script /\ observe st = obs /\
                 driver_blocked st = false.
 Proof.
-  unfold accepts, states_after. intros H. apply existsb_exists in H. destruct H as (st & Hin & Hf).
-  destruct (states_sound obs script (closure obs [init chans cap]) (init chans cap)) with (st := st)
-    as (ls & Hr & Hv); [|exact Hin|].
-  - intros x Hx. apply closure_sound in Hx. destruct Hx as [(x0 & [<-|[]] & Hst) _].
-    apply hstar_run. exact Hst.
-  - exists ls, st. unfold final_ok in Hf. destruct (driver_blocked st); simpl in Hf; [discriminate|].
+  unfold accepts, states_after. intros H. apply existsb_exists in H. destruct H as (x & Hin & Hf).
+  destruct (states_sound obs script (closure obs [init chans cap]) (init chans cap) [] ) with (x := x)
+    as (r & ls & Hr & Hv & Er); [|exact Hin|].
+  - intros y Hy. apply closure_sound in Hy. destruct Hy as [(x0 & [<-|[]] & Hst) _].
+    destruct (hstar_e_lift _ _ Hst (init chans cap) eq_refl) as (r & Hs & Er).
+    destruct (hstar_run _ _ Hs) as (ls & R & V). exists r, ls. auto.
+  - exists ls, r. subst x. unfold final_ok in Hf. rewrite erase_blocked, erase_observe in Hf.
+    destruct (driver_blocked r); simpl in Hf; [discriminate|].
     apply obs_eqb_spec in Hf. auto.
 Qed.
